@@ -815,6 +815,58 @@ def guard_object_rule(index, rep, rid, modules):
     return n
 
 
+def _is_mutable_literal(v):
+    return isinstance(v, (ast.List, ast.Dict, ast.Set, ast.ListComp, ast.DictComp, ast.SetComp)) or (isinstance(v, ast.Call) and isinstance(v.func, ast.Name) and v.func.id in ("list", "dict", "set", "defaultdict", "OrderedDict", "deque", "bytearray")) \
+        or (isinstance(v, ast.Call) and isinstance(v.func, ast.Attribute) and v.func.attr in ("defaultdict", "OrderedDict", "deque"))
+
+
+def shared_state_rule(index, rep, rid, modules):
+    """Nothing mutable is shared between calls or between objects behind the caller's back:
+    (a) no mutable default argument; (b) a class-level mutable container is neither mutated through an instance / the
+    class nor handed on uncopied (stored on an instance, passed as an argument, returned); (c) no function mutates a
+    module-level mutable container."""
+    n = 0
+    for m in modules:
+        mod = index.module(m)
+        for f in index.functions_in_module(m):
+            a = f.node.args
+            for d in list(a.defaults) + [x for x in a.kw_defaults if x is not None]:
+                n += 1
+                rep.check(not _is_mutable_literal(d), rid, f.qualname, "mutable default " + norm(d)[:40], fn_where(f, d), "",
+                          "%s has the mutable default argument `%s`: the one container is shared by every call that does not pass its own, so what one call stores in it (a memo, a cache, an accumulator) is seen by the next call on a different object" % (f.qualname, norm(d)[:40]))
+        for ci in [c for c in index.classes.values() if c.module is mod]:
+            for attr, val in ci.class_attrs.items():
+                if not _is_mutable_literal(val):
+                    continue
+                n += 1
+                family = {k.qualname for k in index.classes.values() if any(b.qualname == ci.qualname for b in index.mro(k))}
+                rebinds = any(w.attr == attr and w.kind == "store" and w.base is not None and norm(w.base) == "self" for meth in ci.methods.values() if meth.name == "__init__" for w in writes_in(meth.node))
+                if rebinds:
+                    continue
+                bad = None
+                for k in [x for x in index.classes.values() if x.qualname in family]:
+                    for meth in k.methods.values():
+                        refs = ("self." + attr, "cls." + attr) + tuple(x.name + "." + attr for x in index.classes.values() if x.qualname in family)
+                        for w in writes_in(meth.node):
+                            if w.attr == attr and w.base is not None and norm(w.base) + "." + attr in refs and w.kind in ("mutcall", "substore", "subdel", "augstore"):
+                                bad = bad or (meth, w.stmt, "mutates it in place")
+                        pm = None
+                        for x in walk_no_nested(meth.node):
+                            if isinstance(x, ast.Attribute) and norm(x) in refs and isinstance(x.ctx, ast.Load):
+                                pm = pm or parent_map(meth.node)
+                                par = pm.get(x)
+                                if isinstance(par, ast.keyword) or (isinstance(par, ast.Call) and x in par.args):
+                                    bad = bad or (meth, x, "passes it on uncopied")
+                                elif isinstance(par, ast.Assign) and par.value is x and any(isinstance(t, ast.Attribute) for t in par.targets):
+                                    bad = bad or (meth, x, "stores it on an instance uncopied")
+                                elif isinstance(par, ast.Return):
+                                    bad = bad or (meth, x, "returns it uncopied")
+                rep.check(bad is None, rid, ci.qualname, "class-level container %s shared: %s" % (attr, bad[2] if bad else ""), "%s:%d" % (mod.relpath, ci.node.lineno), "",
+                          "%s.%s is a class-level mutable container and %s %s (`%s`): all instances - every namespace, tokenizer, tree - then work on one object, so what one of them records or switches is seen by all the others" % (ci.qualname, attr, bad[0].qualname if bad else "", bad[2] if bad else "", norm(bad[1])[:60] if bad else ""))
+    n += module_state_rule(index, rep, rid, modules)
+    return n
+
+
 NUMERIC_EXEMPT = {
     "dendropy.model.coalescent.discrete_time_to_coalescence:pop_size": "documented: a population size of 0 or None both mean 'time in population units'",
 }
@@ -834,6 +886,12 @@ def generic_rules(prop, index, rep):
     with rep.section(rid3):
         nz = zero_is_a_value_rule(index, rep, rid3, mods, exempt=NUMERIC_EXEMPT)
         rep.ob(rid3, "src/dendropy", "%d numeric names, numeric attributes tests and value-position `or` defaults examined" % nz, True, nontrivial=nz > 0)
+    rid4 = "R%s.S" % prop[1:]
+    rep.rule(rid4, "nothing mutable is shared behind the caller's back in the property's modules: no mutable default argument, no class-level container mutated or handed on uncopied, no module-level container mutated by a function")
+    with rep.section(rid4):
+        ns = shared_state_rule(index, rep, rid4, mods)
+        rep.ob(rid4, "src/dendropy", "%d defaults, class-level and module-level containers examined" % ns, True)
+        rep.floor(rid4, "default arguments and containers examined", 5, ns)
     rid2 = "R%s.V" % prop[1:]
     rep.rule(rid2, "right variable in nested loops: an inner loop over a collection derived from the outer item uses its own item")
     with rep.section(rid2):
